@@ -46,6 +46,84 @@ pub fn vt_module(vt: &J, pos: &str) -> String {
     format!("{}{})", pre, body)
 }
 
+/// a module assembled from independent section features (C01/C02 section shapes, constant payloads)
+pub fn shape_module(feat: &[String]) -> Vec<u8> {
+    let has = |f: &str| feat.iter().any(|x| x == f);
+    let mut w = String::from("(module $shape\n");
+    if has("rec") {
+        w += "  (rec (type $a (struct (field (ref null $b)))) (type $b (struct (field (ref null $a)))))\n";
+    }
+    w += "  (type $t0 (func))\n  (type $t1 (func (param i32 f64) (result i64)))\n";
+    if has("dup_types") {
+        w += "  (type (func))\n  (type (func (param i32 f64) (result i64)))\n";
+    }
+    if has("imports") {
+        w += "  (import \"env\" \"f\" (func $if (type $t0)))\n  (import \"env\" \"g\" (global $ig i32))\n";
+        if has("memory") {
+            w += "  (import \"env\" \"m\" (memory 1 2))\n";
+        }
+        w += "  (import \"env\" \"t\" (table 1 funcref))\n";
+    }
+    if has("tag") {
+        w += "  (tag $tg (param i32))\n";
+    }
+    w += "  (func $f0 (type $t0) (local $l0 i32) (local f32 f32) (local $l3 i64)\n    i32.const -1 local.set $l0 f32.const nan:0x200001 drop f64.const -nan:0x8000000000001 drop\n    v128.const i32x4 0xffffffff 0x80000000 1 0 drop i64.const -9223372036854775808 drop)\n";
+    w += "  (func $f1 (type $t1) (local externref) local.get 0 i64.extend_i32_s)\n";
+    if has("table") {
+        w += "  (table $tb 4 8 funcref)\n";
+    }
+    if has("memory") {
+        w += "  (memory $mm 1)\n";
+        if has("mem64") {
+            w += "  (memory $m64 i64 1 3)\n";
+        }
+    }
+    if has("globals") {
+        w += "  (global $g0 (mut i32) (i32.const -7))\n  (global $g1 f32 (f32.const -nan:0x7fffff))\n  (global $g2 f64 (f64.const nan:0x4000000000001))\n";
+        w += "  (global $g3 v128 (v128.const i64x2 0x8000000000000001 -1))\n  (global $g4 funcref (ref.func $f0))\n  (global $g5 (mut i64) (i64.const 9223372036854775807))\n";
+        if has("imports") {
+            w += "  (global $g6 i32 (global.get $ig))\n";
+        }
+    }
+    if has("exports") {
+        w += "  (export \"f0\" (func $f0))\n  (export \"f1\" (func $f1))\n";
+        if has("globals") {
+            w += "  (export \"g0\" (global $g0))\n";
+        }
+        if has("memory") {
+            w += "  (export \"mem\" (memory $mm))\n";
+        }
+        if has("table") {
+            w += "  (export \"tab\" (table $tb))\n";
+        }
+    }
+    if has("start") {
+        w += "  (start $f0)\n";
+    }
+    if has("elem") {
+        if has("table") {
+            w += "  (elem (table $tb) (i32.const 1) func $f0 $f1)\n  (elem (table $tb) (offset (i32.const 0)) funcref (ref.func $f1))\n";
+        }
+        w += "  (elem funcref (ref.func $f0) (ref.null func))\n  (elem declare func $f1)\n";
+    }
+    if has("data") && has("memory") {
+        w += "  (data (memory $mm) (i32.const 8) \"\\00\\ff\\80abc\")\n  (data \"passive\")\n";
+        if has("mem64") {
+            w += "  (data (memory $m64) (i64.const 16) \"x\")\n";
+        }
+    }
+    w += ")\n";
+    let mut bytes = wat::parse_str(&w).unwrap_or_else(|e| panic!("shape wat: {}\n{}", e, w));
+    // custom sections: appended at the end (before and after the name section wat produced)
+    if has("customs") {
+        use wasm_encoder::Section;
+        wasm_encoder::CustomSection { name: "zz.first".into(), data: (&[1u8, 2, 3][..]).into() }.append_to(&mut bytes);
+        wasm_encoder::CustomSection { name: "producers".into(), data: (&[0u8][..]).into() }.append_to(&mut bytes);
+        wasm_encoder::CustomSection { name: "zz.first".into(), data: (&[9u8][..]).into() }.append_to(&mut bytes);
+    }
+    bytes
+}
+
 fn first_diff(a: &str, b: &str) -> (String, String) {
     let mut ia = a.lines();
     let mut ib = b.lines();
@@ -277,6 +355,25 @@ pub fn main(args: &[String]) {
             continue;
         }
         let mut ev = json!({"t":"rt","id":id,"kind":kind});
+        if kind == "shape" {
+            let feat: Vec<String> = case["feat"].as_array().map(|a| a.iter().map(|x| x.as_str().unwrap().to_string()).collect()).unwrap_or_default();
+            ev["feat"] = json!(feat);
+            ev["label"] = json!(feat.join("+"));
+            match guarded(|| shape_module(&feat)) {
+                Ok(b) => {
+                    let b = leak(b);
+                    if let Err(e) = validate(b) {
+                        ev["skip"] = json!(format!("input does not validate: {}", e));
+                    } else {
+                        roundtrip(b, false, &mut ev);
+                    }
+                }
+                Err(m) => ev["skip"] = json!(m),
+            }
+            defaults(&mut ev);
+            out.ev(ev);
+            continue;
+        }
         let wat_text = if kind == "vt" {
             ev["vt"] = case["vt"].clone();
             ev["pos"] = case["pos"].clone();
